@@ -228,8 +228,33 @@ func (d *seqRun) pickUpd(coll string, bulkFunc bool) *Upd {
 	}
 	for i := 0; i < nset; i++ {
 		f := gen.Pick(d.r, fields)
-		if f == "_id" || f == "n" {
+		if f == "_id" {
 			continue
+		}
+		if f == "n" || (strings.HasPrefix(f, "n.") && d.r.P(12)) {
+			// rewrite the whole object (an index may sit on n.a / n.b, i.e. below the written key)
+			conflict := false
+			for k := range u.Set {
+				if strings.HasPrefix(k, "n") {
+					conflict = true
+				}
+			}
+			if !conflict {
+				switch d.r.Intn(3) {
+				case 0:
+					u.Set["n"] = map[string]any{"a": d.r.SmallInt(), "b": d.r.Str()}
+				case 1:
+					u.Set["n"] = d.r.SmallInt()
+				default:
+					u.Set["n"] = map[string]any{"a": d.r.Scalar()}
+				}
+			}
+			continue
+		}
+		if strings.HasPrefix(f, "n.") {
+			if _, whole := u.Set["n"]; whole {
+				continue
+			}
 		}
 		if p, ok := sch.Prof[f]; ok {
 			u.Set[f] = d.r.Value(p)
@@ -247,6 +272,9 @@ func (d *seqRun) pickUpd(coll string, bulkFunc bool) *Upd {
 			u.NewID = d.r.UUID()
 		}
 		u.Name = "rewrite_id"
+		if d.r.P(35) {
+			u.SpellingOfOwnID = true // another spelling (letter case) of the document's own id
+		}
 	}
 	if d.r.P(d.cfg.W["badExpPct"]) {
 		u.BadExp = true
